@@ -1,17 +1,55 @@
-"""Design-level model of draw(): specs/Draw.tla checked by TLC (MC_Draw.cfg)."""
+"""Design-level model of draw(): specs/Draw.tla checked by TLC (MC_Draw.cfg), and the
+operation log of the REAL Renderable.draw() compared with the specified program (spec -> code)."""
 
 from __future__ import annotations
 
-from . import tlc
+from . import drawkit, lexer, tlc
 from .core import Report
+
+KIND = {"write": "W", "flush": "F", "sleep": "S", "render": "R"}
+
+
+def real_program(ops):
+    prog = []
+    for kind, data in ops:
+        toks = []
+        if kind == "write" and data:
+            st = lexer.lex(data)
+            toks = [t for t in st.toks]
+        prog.append({"op": KIND[kind], "toks": toks})
+    return prog
 
 
 def check(rep: Report) -> None:
-    if not (tlc.SPECS / "MC_Draw.cfg").exists():
-        rep.notes.append("Draw.tla design model not built yet")
-        return
-    res = tlc.run("MC_Draw", "MC_Draw.cfg", workers=8, timeout=900)
+    cfg = "MC_Draw.cfg" if rep.tier == "quick" else "MC_Draw_thorough.cfg"
+    res = tlc.run("MC_Draw", cfg, workers=8, timeout=1500)
     rep.add_tlc(res)
-    rep.extra["mc_draw"] = {"states": res.distinct, "generated": res.generated}
+    rep.extra["mc_draw"] = {"states": res.distinct, "generated": res.generated, "cfg": cfg}
     if res.violated:
         rep.violation(f"design:Draw:{res.violated}", res.error_text[:2000], {"kind": "design"})
+        return
+    progs = res.tagged("PROG")
+    if len(progs) < 50:
+        raise tlc.MachineryError(f"only {len(progs)} PROG lines from MC_Draw")
+    for pr in progs:
+        c = pr["c"]
+        case = dict(api="new", rw=c["rw"], rh=c["rh"], frames=c["frames"], loops=c["loops"], cache=False,
+                    pad={"kind": "exact", "l": c["l"], "t": c["t"], "r": c["r"], "b": c["b"]},
+                    cols=c["cols"], rows=c["rows"], tty=c["tty"], r0=0, animate=True,
+                    hide_cursor=True, echo_input=True)
+        rep.evaluations += 1
+        rep.traces_validated += 1
+        r = drawkit.run_new(case)
+        real = real_program(r["ops"])
+        want = [{"op": o["op"], "toks": list(o["toks"])} for o in pr["prog"]]
+        rep.distinct.add(("prog", tuple(sorted(c.items()))))
+        if real != want:
+            i = next((i for i, (a, b) in enumerate(zip(real, want)) if a != b), min(len(real), len(want)))
+            rep.violation(
+                "new-api:draw:choreography",
+                f"operation #{i + 1} of the real draw() differs from the program specified in Draw.tla: "
+                f"real {real[i] if i < len(real) else None}, specified {want[i] if i < len(want) else None} "
+                f"({len(real)} vs {len(want)} operations) for {case}",
+                {"kind": "draw", "case": dict(case, r0=0)},
+            )
+    rep.sample({"draw_program": {"params": progs[0]["c"], "ops": [o["op"] for o in progs[0]["prog"]]}})
